@@ -113,7 +113,7 @@ class TSched:
             out.append(t)
         return out
 
-    def run(self, timeout: float = 20.0) -> None:
+    def run(self, timeout: float = 10.0) -> None:
         global SCHED
         SCHED = self
         try:
